@@ -770,5 +770,9 @@ func runC34(c *Ctx) error {
 		"Definition pools : pool := Eval vm_compute in mkpools (" + strings.Join(ps, " ::\n ") + " :: nil)%N.\n" +
 		"Definition rc := run_case_pool pools.\n"
 	c.Cases.Shard = c.N(260, 500)
-	return c.Cases.Write(c.Out, header, "cres", "cres_eqb")
+	if err := c.Cases.Write(c.Out, header, "cres", "cres_eqb"); err != nil {
+		return err
+	}
+	netStage(c)
+	return nil
 }
